@@ -11,6 +11,7 @@
               without ':' and on the empty line; the body reader leaves its loop when the peer has closed
  C09.headers  setHeader / header / hasHeader all key through the same canonicalisation (case-insensitive lookup); a header's value is
               everything after the colon
+ C09.lookup   accessors of the message classes return `dictionary[key]` through the const subscript (no insertion of absent keys)
  C09.progress the loops that copy from a file or the socket (`n = x.read(...)` ... `count += n`) leave when the read yields 0: assuming 0,
               no walk through evaluated / unchanged branches returns to the same read
  Termination/promptness for every truncated stream and fidelity of bodies are not decided."""
@@ -41,6 +42,8 @@ def run(ctx):
     import progress
     n = progress.check(ctx, prog, 'C09.progress', ('Http.cpp', 'HttpServer.cpp'))
     ctx.floor('C09.progress', n, 1)
+    ctx.floor('C09.lookup', check_lookup(ctx, prog), 1)
+    ctx.info['folded_header_tests'] = check_folded(ctx, prog)
     import nullret
     nullret.check(ctx, prog, 'C09', ('Http.cpp', 'HttpServer.cpp'))
     import litread
@@ -57,6 +60,76 @@ def run(ctx):
     up = ir.load_units([os.path.join(ir.REPO, 'src', x) for x in ('String.cpp', 'unicodedata.cpp')])      # the case tables live in unicodedata.cpp
     C08.check_case_bytes(ctx, up)
     return __doc__.split('\n\n', 1)[1]
+
+
+def check_folded(ctx, prog):
+    """C09.lines (folded headers): a header line that starts with a blank continues the previous header.  The test looks at the
+    first byte of the line *as received*: on no path from the read of the line to the `isspace(line[0])` test has the line been
+    trimmed (a trimmed line never starts with a blank - every continuation would be taken for a header of its own, and one that
+    contains a colon becomes a header the peer never sent)."""
+    f = fn1(prog, 'asl::HttpMessage::readHeaders')
+    cfg = cfgm.CFG(f)
+    bad = []
+    sites = []
+
+    def line_var(e):
+        for w in walk_expr(e):
+            if w.get('k') == 'var' and T(f, w.get('dt') or w.get('t')).get('rec') == 'asl::String':
+                return w['id']
+        return None
+
+    def step(nd, st):
+        if nd.kind != 'ev' or nd.e is None:
+            return st
+        e = nd.e
+        if e.get('k') == 'call':
+            nm = (e.get('pq') or e.get('fn') or '')
+            if nm == 'asl::String::trim' and e.get('obj') is not None and strip_lv(e['obj']).get('k') == 'var':
+                return st | frozenset([strip_lv(e['obj'])['id']])
+            if nm == 'asl::String::operator=' and e.get('obj') is not None and strip_lv(e['obj']).get('k') == 'var':
+                vid = strip_lv(e['obj'])['id']
+                if any(w.get('k') == 'call' and (w.get('pq') or '') in ('asl::String::trimmed', 'asl::String::trim') for w in walk_expr(e['a'][0] if e.get('a') else {})):
+                    return st | frozenset([vid])
+                return st - frozenset([vid])
+            if nm.split('::')[-1] in ('isspace', 'myisspace', 'isblank') and e.get('a'):
+                vid = line_var(e['a'][0])
+                if vid is not None:
+                    sites.append(e.get('l'))
+                    if vid in st:
+                        bad.append(e.get('l'))
+        return st
+    cfgm.dataflow(cfg, frozenset(), step)
+    if sites:
+        ctx.analysed(f)
+        ctx.check(not bad, 'C09.lines', f['pq'], 'readHeaders:the continuation test reads the line as received', fwhere(f, bad[0] if bad else sites[0]), 'no trim of the line on a path to the test of its first byte',
+                  'readHeaders tests the first byte of the line for a blank (line %s) after the line was trimmed: the test can never succeed, so a folded header line is parsed as a header of its own (`X-Note: a\\r\\n Authorization: none` yields an Authorization header the peer did not send)' % (bad[0] if bad else ''))
+    return len(sites)
+
+
+def check_lookup(ctx, prog):
+    """C09.lookup: asking a request for a parameter or header it does not carry leaves the request as it was received.  The
+    dictionaries of a message (`_query`, `_headers`) have two subscript operators: the const one returns an empty value for an
+    absent key, the non-const one *inserts* the key (and may move the array every earlier `const String&` result points into).
+    In the accessors of the HTTP message classes every `return <dictionary>[key]` goes through the const operator."""
+    n = 0
+    for f in prog.functions:
+        if not f.get('body') or f.get('implicit') or f.get('clsp') not in ('asl::HttpRequest', 'asl::HttpMessage', 'asl::HttpResponse', 'asl::Url'):
+            continue
+        for s_ in ir.walk_stmts(f['body']):
+            if s_.get('k') != 'return' or s_.get('e') is None:
+                continue
+            e = strip(s_['e'])
+            while e.get('k') in ('paren', 'cast', 'temp') or (e.get('k') == 'construct' and len(e.get('a') or []) == 1):
+                e = strip(e['e'] if e.get('k') != 'construct' else e['a'][0])
+            if e.get('k') != 'call' or e.get('clsp') not in ('asl::Map', 'asl::Dic', 'asl::HashMap') or (e.get('pq') or '').split('::')[-1] not in ('operator[]', 'get', 'find') or e.get('obj') is None:
+                continue
+            n += 1
+            ctx.analysed(f)
+            inserting = (e.get('pq') or '').endswith('operator[]') and not (e.get('sig') or '').rstrip().endswith('const')
+            role = '%s%s:`return %s` looks up without inserting' % (f['n'], f.get('sig') or '', pe(e)[:40])
+            ctx.check(not inserting, 'C09.lookup', f['pq'], role, fwhere(f, s_.get('l')), 'const subscript (an absent key yields an empty value)',
+                      '%s returns `%s` through the non-const subscript operator: a key the peer did not send is inserted with an empty value - the request then lists parameters that were never sent, and the insertion can move the array that earlier results refer to' % (f['pq'], pe(e)))
+    return n
 
 
 def fn1(prog, name, sig=None):
